@@ -206,8 +206,8 @@ Print Assumptions C02_regex_operations_inside_map.
 
 (* PARSE FIDELITY FOR ALL TWENTY OPERATIONS.  A pipeline is any list of (operation, text) in
    which each text is a documented way of writing the operation ([written]: every spelling of
-   the text/range operations, the four regex operations, the shorthand, map:{...} over inner
-   spellings).  The one interaction between neighbours is stated, not hidden: a bare regex
+   the text/range operations, text arguments with redundant escapes, the four regex operations,
+   the shorthand, map:{...} over inner spellings).  The one interaction between neighbours is stated, not hidden: a bare regex
    argument ends at "|" only when an operation keyword follows ([followers_ok]), so the next
    operation is not written in the digit shorthand.  Then the grammar regenerated from
    template.pest and the converter of parser.rs return exactly the pipeline written, with the
